@@ -184,14 +184,25 @@ def check(run, tier):
                 if ev == "enter" and kw["inst"]["id"] == G[e]["id"] and "args" not in seen:
                     seen["args"] = list(kw["args"])
                     a0 = kw["args"][0]
-                    seen["list"] = kw["interp"].read(kw["state"], a0.cell, a0.path, ("entry",)) if isinstance(a0, Ref) and a0.cell is not None else None
+                    seen["list"] = kw["interp"].read(kw["state"], a0.cell, a0.path, ("entry",)) if isinstance(a0, Ref) and a0.cell is not None else (a0 if isinstance(a0, Struct) else None)
+                    if e == FIND_N and isinstance(seen["list"], Struct):
+                        for x in seen["list"].fields:
+                            if isinstance(x, Ref) and x.cell is not None:
+                                seen["buf"] = kw["interp"].read(kw["state"], x.cell, x.path, ("entrybuf",))
                     seen["state"] = kw["state"].copy()
                 if ev == "leave" and kw["inst"]["id"] == G[e]["id"]:
                     seen["ret"] = kw["ret"]
 
             I = Exec(f, M, INVARIANTS)
             I.hooks.append(hook)
-            R, frame, args = I.analyse_root(insts[e])
+            buf0 = {}
+
+            def mk0(I_, S, inst, args_):
+                if e == FIND_N and isinstance(args_[0], Ref) and args_[0].cell is not None:
+                    buf0["v"] = I_.read(S, args_[0].cell, args_[0].path, ("buf0",))
+                return args_
+
+            R, frame, args = I.analyse_root(insts[e], mk0)
             off = 1 if e == FIND_N else 0
             ga = seen.get("args")
             ok_args = ga is not None and len(ga) == 9 and all(same_shape(ga[1 + i], args[off + i]) for i in range(8))
@@ -205,13 +216,24 @@ def check(run, tier):
             if e == FIND_N and isinstance(lst, Struct) and S0 is not None:
                 refs = [x for x in lst.fields if isinstance(x, Ref)]
                 scal = [x for x in lst.fields if isinstance(x, Scalar)]
-                fresh = len(refs) == 1 and isinstance(args[0], Ref) and refs[0].cell == args[0].cell and refs[0].path == args[0].path and len(scal) == 2 and all(S0.ivof(x.sym) == D.point(0) for x in scal)
+                b0, b1 = buf0.get("v"), seen.get("buf")
+                untouched = isinstance(b0, Seq) and isinstance(b1, Seq) and b0.len == b1.len and b0.elem is b1.elem
+                fresh = len(refs) == 1 and isinstance(args[0], Ref) and refs[0].cell == args[0].cell and refs[0].path == args[0].path and len(scal) == 2 and all(S0.ivof(x.sym) == D.point(0) for x in scal) and untouched
             elif e == FIND and isinstance(lst, Struct) and S0 is not None:
                 v = lst.fields[0] if lst.fields else None
                 fresh = isinstance(v, Seq) and S0.ivof(v.len) == D.point(0)
             run.obligation(fresh)
             if not fresh:
-                run.finding("ENTRY", "%s|%s|fresh-list" % (cfg, e), "%s does not hand the search a freshly built, empty result list (on the caller's buffer, counters 0)" % e, insts[e].get("span"))
+                run.finding("ENTRY", "%s|%s|fresh-list" % (cfg, e), "%s does not hand the search a freshly built, empty result list (on the caller's buffer, left as the caller passed it, counters 0)" % e, insts[e].get("span"))
+            # every Ok return comes after the search succeeded
+            ce = CFG(insts[e])
+            gb = [bi for bi, _, r in ce.calls() if r is not None and r.get("inst") == G[e]["id"]]
+            oks = ce.ok_return_blocks()
+            st_ = ce.success_targets(gb[0]) if len(gb) == 1 else []
+            through = len(gb) == 1 and bool(oks) and bool(st_) and all(any(ce.dominated_by(b, t) for t in st_) for b in oks)
+            run.obligation(through)
+            if not through:
+                run.finding("ENTRY", "%s|%s|ok-without-search" % (cfg, e), "%s can return Ok without the shared search having succeeded (an early return bypasses it, so count/exhaustiveness/errors differ from the other entry point)" % e, insts[e].get("span"))
             # error unchanged
             errok = False
             ret = R.cells.get((frame, 0)) if R is not None else None
@@ -354,7 +376,7 @@ def check(run, tier):
     off, _ = direct_buffer_readers(fx, "badcrate::list::BufSink", 0)
     names = sorted(o.rsplit("::", 1)[1] for o in off)
     run.control("VIEW fires on a reader of the raw buffer and not on its data() twin", names == ["bad_first"])
-    run.floor("obligations", run.obligations, 14)
+    run.floor("obligations", run.obligations, 16)
     run.trusted += ["E-AI (see C07)", "rustc's parametricity: a generic function can use a type parameter only through its declared bounds (no specialisation, no Any, no size_of on L in the body: checked)"]
     run.explanation = EXPLANATION
     run.extra["not_decided"] = ["unique/earliest/latest of the two list types agree (beyond going through data())", "the search's results themselves (C05/C06)"]
